@@ -290,4 +290,12 @@ theorem le_put (w n : Nat) (hn : n < 256 ^ w) (r : Bytes) :
   rw [this]
   simp [leVal_leBytes, Nat.mod_eq_of_lt hn]
 
+theorem le_put_mod (w n : Nat) (r : Bytes) :
+    Parser.le w (leBytes w n ++ r) = .ok (n % 256 ^ w, r) := by
+  unfold Parser.le
+  have := take_append (leBytes w n) r
+  rw [leBytes_length] at this
+  rw [this]
+  simp [leVal_leBytes]
+
 end Model
